@@ -58,7 +58,10 @@ def main(tier, seed, replay):
 
 REQUIRED = [("faults", "diagnostic_requests"), ("faults", "expander_panics_caught"), ("faults", "worker_crash_and_replace"),
             ("faults", "process_restarts"), ("faults", "clock_skewed_processes"), ("faults", "pid_faked_processes"),
-            ("multi_worker_processes",), ("distinct_entropy_seeds",), ("distinct_layouts",)]
+            ("multi_worker_processes",), ("distinct_entropy_seeds",), ("distinct_layouts",),
+            ("environment_dimensions_exercised", "processes_under_a_host_executable_name"), ("environment_dimensions_exercised", "processes_with_a_manifest_on_disk"),
+            ("environment_dimensions_exercised", "processes_with_cargo_variables"), ("environment_dimensions_exercised", "processes_pinned_to_a_cpu_subset"),
+            ("environment_dimensions_exercised", "processes_serving_1000_or_more_requests")]
 
 
 def do_check(tier, seed, t0):
